@@ -38,9 +38,17 @@ Fixpoint assoc_z {X} (d : Z) (l : list (Z * X)) : option X :=
    (key, value) is a function of the two digests, so the ITEMS argument is computed here. *)
 Definition pair_digest (dk dv : Z) : Z := (((17 * 131 + dk + 7) mod DMOD) * 131 + dv + 7) mod DMOD.
 
-(* argument shape: VALUES -> the value; ITEMS -> the (key, value) tuple *)
-Definition mk_arg_d (items_form : bool) (k : val) (dv : Z) : Z :=
-  if items_form then pair_digest (digest k) dv else dv.
+(* argument shape, read from the source (Gen_c18.c18_pool_shape / c18_seq_shape): VALUES -> the value; ITEMS -> the (key, value)
+   pair.  M uses what the pooled arg_gen() yields, S what the sequential apply_iter_items passes. *)
+Definition shape_digest (sh : c18_shape) (dk dv : Z) : Z :=
+  match sh with
+  | ShV => dv
+  | ShK => dk
+  | ShKV => pair_digest dk dv
+  | ShVK => pair_digest dv dk
+  end.
+Definition mk_arg_d (items_form : bool) (k : val) (dv : Z) : Z := shape_digest (c18_pool_shape items_form) (digest k) dv.
+Definition mk_arg_s (items_form : bool) (k : val) (dv : Z) : Z := shape_digest (c18_seq_shape items_form) (digest k) dv.
 
 Definition pool_f (fails : list (Z * string)) (a : Z) : res val :=
   match assoc_z a fails with
@@ -68,13 +76,13 @@ Definition c18_apply_M (items_form : bool) (fails : list (Z * string)) (kind : p
 
 Definition c18_apply_S (items_form : bool) (fails : list (Z * string))
            (items : list (val * Z)) (obs : res (list (val * val))) : bool :=
-  spec_eqb pairs_eqb (S_apply (mk_arg_d items_form) (pool_f fails) items) obs.
+  spec_eqb pairs_eqb (S_apply (mk_arg_s items_form) (pool_f fails) items) obs.
 
 (* ---- INDEX_LABELS constructor: an array of the values, keys dropped *)
 Definition c18_labels_M (items_form : bool) fails kind k c pi (items : list (val * Z)) (obs : res (list val)) : bool :=
   obs_eqb vlist_eqb (res_map ctor_labels (M_apply_pool (mk_arg_d items_form) (pool_f fails) kind k c pi items)) obs.
 Definition c18_labels_S (items_form : bool) fails (items : list (val * Z)) (obs : res (list val)) : bool :=
-  spec_eqb vlist_eqb (res_map ctor_labels (S_apply (mk_arg_d items_form) (pool_f fails) items)) obs.
+  spec_eqb vlist_eqb (res_map ctor_labels (S_apply (mk_arg_s items_form) (pool_f fails) items)) obs.
 
 (* ---- the oracle alone: Executor.map(f, xs, chunksize) on a real pool under an enforced schedule *)
 Definition c18_exec_M fails kind k c pi (xs : list Z) (obs : res (list val)) : bool :=
@@ -82,7 +90,7 @@ Definition c18_exec_M fails kind k c pi (xs : list Z) (obs : res (list val)) : b
 
 (* ---- Batch: bundle = (label, frame); apply -> f(frame), apply_items -> f((label, frame)) *)
 Definition batch_f (items_form : bool) (fails : list (Z * string)) (b : val * Z) : res val :=
-  pool_f fails (mk_arg_d items_form (fst b) (snd b)).
+  pool_f fails (if items_form then pair_digest (digest (fst b)) (snd b) else snd b).   (* batch.py: call_func / call_func_items *)
 Definition listed_cls (cls : string) (e : string) : bool := String.eqb cls e.
 
 Definition c18_batch_M (items_form : bool) fails kind k c pi (items : list (val * Z)) obs : bool :=
@@ -153,7 +161,9 @@ Definition c18_config_S (default : wcfg) (m : list (Z * wcfg)) (obs : res (list 
 (* ---- FRAME_ELEMENTS: keys are (row label, column label) pairs; the returned Frame is rebuilt from the delivered
    stream by run segmentation on the outer key (SF/Pool.v: ctor_elements), observed through iter_element_items(axis) *)
 Definition mk_arg_e (items_form : bool) (k : val * val) (dv : Z) : Z :=
-  if items_form then pair_digest (digest (VTup [fst k; snd k])) dv else dv.
+  shape_digest (c18_pool_shape items_form) (digest (VTup [fst k; snd k])) dv.
+Definition mk_arg_es (items_form : bool) (k : val * val) (dv : Z) : Z :=
+  shape_digest (c18_seq_shape items_form) (digest (VTup [fst k; snd k])) dv.
 Definition ekey_eqb := pair_eqb val_eqb val_eqb.
 Definition epairs_eqb : list ((val * val) * val) -> list ((val * val) * val) -> bool := list_eqb (pair_eqb ekey_eqb val_eqb).
 Definition outer_of_axis (axis1 : bool) (k : val * val) : val := if axis1 then snd k else fst k.
@@ -168,4 +178,4 @@ Definition c18_elements_M (axis1 items_form : bool) (fails : list (Z * string)) 
      end) obs.
 Definition c18_elements_S (items_form : bool) (fails : list (Z * string))
            (items : list ((val * val) * Z)) (obs : res (list ((val * val) * val))) : bool :=
-  spec_eqb epairs_eqb (S_apply (mk_arg_e items_form) (pool_f fails) items) obs.
+  spec_eqb epairs_eqb (S_apply (mk_arg_es items_form) (pool_f fails) items) obs.
